@@ -9,6 +9,7 @@
 #include "libMultiMarkdown.h"
 #include "token.h"
 #include "token_pairs.h"
+void pair_emphasis_tokens(token * t);
 
 #define MAXT 4096
 static token * T[MAXT + 1];
@@ -36,8 +37,8 @@ int main(void) {
 		char * src = NULL;
 		nt = 0;
 		for (int k = 0; k < no; k++) {
-			char * f[6];
-			int nf = h_split(ops[k], ' ', f, 6);
+			char * f[14];
+			int nf = h_split(ops[k], ' ', f, 14);
 			if (k == 0) { src = (nf > 0 && strcmp(f[0], "-")) ? h_unhex(f[0], NULL) : strdup(""); continue; }
 			if (nf == 0) continue;
 			const char * o = f[0];
@@ -67,6 +68,25 @@ int main(void) {
 			} else if (!strcmp(o, "M") && nf == 3) {
 				token * a = tk(f[1]), * b = tk(f[2]);
 				if (a && b) token_pair_mate(a, b);          /* token_pairs.c: a->mate = b; b->mate = a (and both are marked matched) */
+			} else if (!strcmp(o, "EM") && nf >= 2) {
+				/* mmd.c:pair_emphasis_tokens; the tokens it allocates (copies made by token_prune_graft) are found by walking
+				   child / next from the known tokens and numbered by address (the pool hands out consecutive slots) */
+				token * t = tk(f[1]);
+				if (t) {
+					pair_emphasis_tokens(t);
+					static token * found[MAXT]; long nfound = 0;
+					for (int pass = 0; pass < 64; pass++) {
+						long before = nfound;
+						for (long i = 1; i <= nt; i++) {
+							token * c[2] = { T[i]->child, T[i]->next };
+							for (int q = 0; q < 2; q++) if (c[q] && idof(c[q]) == -1) { int dup = 0; for (long z = 0; z < nfound; z++) if (found[z] == c[q]) dup = 1; if (!dup && nfound < MAXT) found[nfound++] = c[q]; }
+						}
+						/* add in address order, then look again from the new ones */
+						for (long a = 0; a < nfound; a++) for (long b = a + 1; b < nfound; b++) if (found[b] < found[a]) { token * x = found[a]; found[a] = found[b]; found[b] = x; }
+						if (nfound == before) break;
+					}
+					for (long a = 0; a < nfound; a++) add(found[a]);
+				}
 			} else { printf("BADOP %s ", o); }
 		}
 		printf("%ld", nt);
